@@ -3,11 +3,11 @@
   specification predicates on the implementation's own observations.
 
   Input lines (stdin), see harness/c16.cpp and the header of IcingaModel/C16/Spec.lean:
-    C <n> <tag>
+    C <n> <tag>                                       | boundH=<names> boundS=<names>   (names EvaluateFilter binds, by reflection)
     K <NAME> <val>
     U <name> <val>                                    (top-level `var`, captured by rules with u=<name,..>)
-    H <name> <os> <groups> <arr> <dict> <mix>
-    S <host> <short> <os> <groups> <arr> <dict> <mix>
+    H <name> <os> <groups> <arr> <dict> <mix> [j=<pec>]
+    S <host> <short> <os> <groups> <arr> <dict> <mix> [j=<pec>]   (joins set: check_period, event_command, command_endpoint)
     O <i> <dsl text ...>                              | h=<bits> s=<bits>          (oracle: value of atom i per target)
     R <id> <src> <tgt> <name> <for> <fk> <fv> <bodyhost> [a=<expr>].. [i=<expr>].. [u=<name,..>]..
     L <concs>                                         | p1=<res> w1=<res> [p16=<res> w16=<res>]
@@ -144,6 +144,7 @@ structure RuleRec where
 structure DSt where
   consts : List (String × Val) := []
   uvars : List (String × Val) := []
+  joins : List (Val × String) := []
   hosts : List (String × VarsRec) := []
   services : List ((String × String) × VarsRec) := []
   atoms : List (Nat × List (Option Val) × List (Option Val)) := []
@@ -170,6 +171,10 @@ structure DSt where
   cascade : Nat := 0
   cascadeCreated : Nat := 0
   rulesUse : Nat := 0
+  boundChecked : Nat := 0
+  apiCollide : Nat := 0
+  apiCollideNav : Nat := 0
+  apiCollideRecognised : Nat := 0
   api : Nat := 0
   apiFast : Nat := 0
   apiFastNonEmpty : Nat := 0
@@ -214,7 +219,13 @@ def world (d : DSt) : World :=
       | .host n, .str "__name" => some (.str n)
       | .service h s, .str "__name" => some (.str (h ++ "!" ++ s))
       | _, _ => none
-    nav := fun _ n => if n == "check_command" then .object "CheckCommand" "dummy" else .empty }
+    nav := fun t n =>
+      let j := (d.joins.lookup t).getD ""
+      if n == "check_command" then .object "CheckCommand" "dummy"
+      else if n == "check_period" && j.contains 'p' then .object "TimePeriod" "tp"
+      else if n == "event_command" && j.contains 'e' then .object "EventCommand" "ecmd"
+      else if n == "command_endpoint" && j.contains 'c' then .object "Endpoint" "ep"
+      else .empty }
 
 def varsOfHost (d : DSt) (n : String) : VarsRec := (d.hosts.lookup n).getD {}
 def varsOfService (d : DSt) (h s : String) : VarsRec := (d.services.lookup (h, s)).getD {}
@@ -412,9 +423,14 @@ def handleA (d : DSt) (n : Nat) (pre post : List String) : IO DSt := do
         | .host => (getTargetHosts (apiConsts fv) e).isSome
         | .service => (getTargetServices (apiConsts fv) e).isSome
       let dups := ((kvOf post "dups").bind String.toNat?).getD 0
+      let collide := fvarsCollide ty fv
+      let collideNav := (fv.getD []).any fun p => navNames.contains p.1 || (ty == .service && p.1 == "host")
       let mut d := { d with steps := d.steps + 1, api := d.api + 1, apiDups := d.apiDups + (if dups > 0 then 1 else 0),
                             apiFast := d.apiFast + (if recognised then 1 else 0),
-                            evals := d.evals + (targets inv ty).length }
+                            evals := d.evals + (targets inv ty).length,
+                            apiCollide := d.apiCollide + (if collide then 1 else 0),
+                            apiCollideNav := d.apiCollideNav + (if collideNav then 1 else 0),
+                            apiCollideRecognised := d.apiCollideRecognised + (if collide && recognised then 1 else 0) }
       if recognised && (mfast.map (·.length)).getD 0 > 0 then
         d := { d with apiFastNonEmpty := d.apiFastNonEmpty + 1, caseNontrivial := true }
       if mslow.isNone then d := { d with apiErr := d.apiErr + 1 }
@@ -438,6 +454,12 @@ def handleA (d : DSt) (n : Nat) (pre post : List String) : IO DSt := do
   | _ => bad d n
 
 /-! ### the other lines -/
+
+def parseJoins : List String → Option String
+  | [] => some ""
+  | [t] => if t.startsWith "j=" && ((t.drop 2).toString.toList.all fun c => c == 'p' || c == 'e' || c == 'c')
+           then some (t.drop 2).toString else none
+  | _ => none
 
 def handleR (d : DSt) (n : Nat) (pre : List String) : IO DSt := do
   match pre with
@@ -468,8 +490,19 @@ def handle (d : DSt) (n : Nat) (line : String) : IO DSt := do
   | [] => return d
   | "C" :: _ =>
     let d := closeCase d
-    return { d with consts := [], uvars := [], hosts := [], services := [], atoms := [], rules := [],
-                    caseNo := d.caseNo + 1, caseHash := 7 }
+    let mut d := { d with consts := [], uvars := [], joins := [], hosts := [], services := [], atoms := [], rules := [],
+                          caseNo := d.caseNo + 1, caseHash := 7 }
+    -- the names FilterUtility::EvaluateFilter binds, read from the type reflection, against the model's `apiBound`
+    for (key, ty) in [("boundH", TgtType.host), ("boundS", TgtType.service)] do
+      match kvOf post key with
+      | none => pure ()
+      | some impl =>
+        let model := ",".intercalate (sortStrs (apiBound ty))
+        d := { d with boundChecked := d.boundChecked + 1 }
+        if ",".intercalate (sortStrs (splitC impl)) != model then
+          IO.println s!"MISMATCH line={n} case={d.caseNo} what=bound_names_{key} impl={impl} model={model}"
+          d := { d with mismatches := d.mismatches + 1 }
+    return d
   | w0 :: _ =>
     if w0.startsWith "#" || w0 == "STATS" then return d
     let d := { d with caseHash := mixHash d.caseHash (hash (" ".intercalate ws)) }
@@ -482,14 +515,15 @@ def handle (d : DSt) (n : Nat) (line : String) : IO DSt := do
       match parseVal v with
       | some val => return { d with uvars := d.uvars ++ [(name, val)] }
       | none => bad d n
-    | ["H", name, _os, _groups, arr, dict, mix] =>
-      match parseVarsRec arr dict mix with
-      | some vr => return { d with hosts := d.hosts ++ [(name, vr)] }
-      | none => bad d n
-    | ["S", host, short, _os, _groups, arr, dict, mix] =>
-      match parseVarsRec arr dict mix with
-      | some vr => return { d with services := d.services ++ [((host, short), vr)] }
-      | none => bad d n
+    | "H" :: name :: _os :: _groups :: arr :: dict :: mix :: rest =>
+      match parseVarsRec arr dict mix, parseJoins rest with
+      | some vr, some j => return { d with hosts := d.hosts ++ [(name, vr)], joins := d.joins ++ [(Val.host name, j)] }
+      | _, _ => bad d n
+    | "S" :: host :: short :: _os :: _groups :: arr :: dict :: mix :: rest =>
+      match parseVarsRec arr dict mix, parseJoins rest with
+      | some vr, some j =>
+        return { d with services := d.services ++ [((host, short), vr)], joins := d.joins ++ [(Val.service host short, j)] }
+      | _, _ => bad d n
     | "O" :: iS :: _ =>
       match iS.toNat?, kvOf post "h", kvOf post "s" with
       | some i, some hb, some sb =>
@@ -506,4 +540,4 @@ def main : IO Unit := do
   let stdin ← IO.getStdin
   let d ← foldLines stdin handle ({} : DSt)
   let d := closeCase d
-  IO.println s!"STATS cases={d.caseNo} steps={d.steps} loads={d.loads} load_runs={d.loadRuns} evaluations={d.evals} rules_targeted={d.rulesTargeted} rules_regular={d.rulesRegular} rules_for={d.rulesFor} rules_ignore={d.rulesIgnore} rules_loopvar_shadow={d.rulesShadow} created={d.createdIndexed} created_by_index={d.createdByIndex} rejected_indexed={d.rejIndexed} rejected_plain={d.rejPlain} model_index_vs_plain_diverge={d.diverge} spec_silent={d.specSilent} cascade_cases={d.cascade} cascade_services={d.cascadeCreated} rules_use={d.rulesUse} api={d.api} api_recognised={d.apiFast} api_fast_nonempty={d.apiFastNonEmpty} api_dups={d.apiDups} api_err={d.apiErr} api_model_diverge={d.apiDiverge} nontrivial={d.nontrivial} mismatches={d.mismatches} specfails={d.specfails} badlines={d.badlines}"
+  IO.println s!"STATS cases={d.caseNo} steps={d.steps} loads={d.loads} load_runs={d.loadRuns} evaluations={d.evals} rules_targeted={d.rulesTargeted} rules_regular={d.rulesRegular} rules_for={d.rulesFor} rules_ignore={d.rulesIgnore} rules_loopvar_shadow={d.rulesShadow} created={d.createdIndexed} created_by_index={d.createdByIndex} rejected_indexed={d.rejIndexed} rejected_plain={d.rejPlain} model_index_vs_plain_diverge={d.diverge} spec_silent={d.specSilent} cascade_cases={d.cascade} cascade_services={d.cascadeCreated} rules_use={d.rulesUse} bound_checked={d.boundChecked} api_collide={d.apiCollide} api_collide_nav={d.apiCollideNav} api_collide_recognised={d.apiCollideRecognised} api={d.api} api_recognised={d.apiFast} api_fast_nonempty={d.apiFastNonEmpty} api_dups={d.apiDups} api_err={d.apiErr} api_model_diverge={d.apiDiverge} nontrivial={d.nontrivial} mismatches={d.mismatches} specfails={d.specfails} badlines={d.badlines}"
